@@ -6,6 +6,10 @@ HERE = os.path.dirname(os.path.dirname(os.path.abspath(__file__)))
 props = [json.loads(l) for l in open(os.path.join(HERE, "properties.jsonl"))]
 
 CLAIMS = {
+ "C12": dict(
+  technique="custom static checker: extraction of the option dispatch chain with prefix-shadow analysis, option->field->getter->consumer tables against the documented contract, dominance-based bounds facts for every argv subscript and pointer offset, path skeletons of rejection and of repeat/shuffle value parsing",
+  text="Decides that every documented option is reachable in the dispatch order, sets/reads/consumes the documented field with the documented modifier semantics (s, x, g/n, group.name and TEST() forms), that every av[...] access and every offset into an argument is dominated by its bounds check, that a rejected argument returns false in the same iteration and no test runs after rejection, and that -r/-s consume the next argument only for a non-zero number. Memory safety and termination of the string primitives on arbitrary bytes are C13's undecided part.",
+  note="Trusted: the help text's option meanings frozen in the rule tables; clang AST/CFG."),
  "C09": dict(
   technique="custom static checker: exhaustive partition over all ordered tag pairs driving a path walk of equals() and every getter, tag->union-member table extracted from the setValue overloads, interval (range) analysis of every explicit and implicit integer cast under the dominating sign guards",
   text="For all 36 integer type pairs and all 6x6 getter/tag combinations the checker proves, over the complete value range of each type (not sampled values), that the selected comparison reads the members the tags were stored in and that every conversion clang inserted is value-preserving under the guards, so comparison equals comparison of mathematical values, symmetric because both orders are checked; mismatched non-integer tags never compare equal; doubles use the receiver's tolerance. String/buffer content comparison semantics are not decided here.",
